@@ -580,23 +580,19 @@ func ruleC35(c *Ctx) {
 		}
 		it := c.Func(pk, "(*DynamicBanScore).int")
 		if it != nil {
+			// anchored at the decay computation itself (however its result travels to the return)
 			n := 0
-			for _, b := range it.Blocks {
-				if ret, ok := b.Instrs[len(b.Instrs)-1].(*ssa.Return); ok {
-					if mentions(ret.Results[0], callsKey(pk+".decayFactor"), 5, nil) {
-						have := factsAt(ret)
-						okf := false
-						for ft := range have {
-							if strings.HasPrefix(ft, c.constVal(pk, "Lifetime")+" >= ") || strings.HasSuffix(ft, " <= "+c.constVal(pk, "Lifetime")) {
-								okf = true
-							}
-						}
-						if okf {
-							n++
-						} else {
-							n = -100
-						}
+			for _, s := range callsTo(it, false, pk+".decayFactor") {
+				okf := false
+				for ft := range factsAt(s) {
+					if strings.HasPrefix(ft, c.constVal(pk, "Lifetime")+" >= ") || strings.HasSuffix(ft, " <= "+c.constVal(pk, "Lifetime")) {
+						okf = true
 					}
+				}
+				if okf {
+					n++
+				} else {
+					n = -100
 				}
 			}
 			c.Require("facts", fname(it)+": the decayed part is added only while the age is within Lifetime", n >= 1, "decay return under dt ≤ Lifetime")
